@@ -81,6 +81,12 @@ def t1_abort_wired(P, E):
                   if any(gg[0] == g[0] and gg[1] == g[1] and gg[2] == g[2] for t in tb.operand_prov(k.args[0]) for gg in P.global_cell(tb, t))]
             if not ab or Effects.path_avoiding(tb, tb.returns, ab) is not None:
                 ok_b = False
+        # the controller has ONE on_finalize slot: a second set_on_finalize anywhere in this subscription's code replaces the abort
+        all_sof = [c for x in [B] + P.descendants(B) for c in x.calls if atom(c) == "set_on_finalize"]
+        if ok_a and len(all_sof) > 1:
+            r.violate((rootfn, "on_finalize registered twice"),
+                      "this subscription's code calls set_on_finalize %d times: the StreamController keeps only the last hook, so the one that "
+                      "aborts the scheduler is replaced and the worker thread outlives the subscription" % len(all_sof), body=B, line=all_sof[-1].line)
         r.instance((rootfn, "scheduler"), True, "created in %s; wired by %s" % (B.nid, "on_finalize" if ok_a else ("task" if ok_b else "NOTHING")))
         if not (ok_a or ok_b):
             r.violate((rootfn, "scheduler abort not wired"),
@@ -89,6 +95,44 @@ def t1_abort_wired(P, E):
                       "outlives the subscription" % (why or "no wiring found"), body=B, line=B.call_at(alloc_bb).line if B.call_at(alloc_bb) else None)
     if n < 5:
         r.error("T1: only %d scheduler instantiation sites found (floor 5)" % n)
+    return r
+
+
+def sched_factory_fresh(P, E):
+    """`schedulers::new_thread_scheduler()` returns a factory; every call of the factory builds a NEW scheduler (its own queue, flag and
+    worker) - the factory's body is `NewThreadScheduler::new()` and nothing else.  A factory that hands out a cached / shared scheduler
+    makes independent subscriptions share one queue: aborting one discards the other's tasks and stops its worker."""
+    r = RuleResult("Q14", "the new_thread_scheduler factory builds a fresh NewThreadScheduler on every call")
+    fb = [b for b in P.bodies.values() if b.kind == "closure" and b.nid.startswith("schedulers::new_thread_scheduler::new_thread_scheduler::")
+          and b.parent_id and norm(b.parent_id).endswith("new_thread_scheduler::new_thread_scheduler")]
+    if not fb:
+        # `fn() -> NewThreadScheduler` given as the constructor itself: new_thread_scheduler() returns the fn item NewThreadScheduler::new
+        outer = [b for b in P.orig.values() if b.nid == "schedulers::new_thread_scheduler::new_thread_scheduler"]
+        if len(outer) == 1:
+            ob = outer[0]
+            direct = False
+            for i in sorted(ob.reach):
+                for st in ob.blocks[i]["stmts"]:
+                    if st["k"] == "assign" and st["lhs"] == [0]:
+                        rv = st["rv"]
+                        op = rv.get("op") if rv["k"] in ("use", "cast") else None
+                        if isinstance(op, dict) and op.get("k") == "const" and norm(op.get("fn") or "").endswith("NewThreadScheduler::new"):
+                            direct = True
+            r.instance((ob.nid, "factory"), True, "returns the constructor itself: %s" % direct)
+            if direct and not ob.calls:
+                return r
+    if len(fb) != 1:
+        r.error("Q14: factory closure of schedulers::new_thread_scheduler not found (%d candidates)" % len(fb))
+        return r
+    b = fb[0]
+    news = [c for c in b.calls if c.path.endswith("NewThreadScheduler::new")]
+    others = [c.path for c in b.calls if not c.path.endswith("NewThreadScheduler::new")]
+    ret_ok = len(news) == 1 and all(t[0] == "ret" and t[1] == news[0].bb and not t[2] for t in b.local_prov(0))
+    r.instance((b.nid, "factory"), True, "NewThreadScheduler::new calls %d, other calls %s" % (len(news), others))
+    if not ret_ok or others or b.upvars:
+        r.violate((b.nid, "factory does not build a fresh scheduler"),
+                  "the closure returned by new_thread_scheduler() is not just `NewThreadScheduler::new()` (other calls: %s, captures: %d): "
+                  "schedulers handed to different subscriptions may be one and the same" % (others, len(b.upvars)), body=b)
     return r
 
 
